@@ -1034,6 +1034,12 @@ impl<K: AsRef<Key>> ServerSequence<K> {
         Target: Composer,
     {
         let variables = Variables::new(now, fudge, TsigRcode::NOERROR, None);
+        // If the TSIG record does not fit, the message is not sent as part
+        // of the sequence: the state has to stay as it was so that whatever
+        // is signed next (e.g., a truncated response sent in its place)
+        // continues from the last message that really went out.
+        let saved_context = self.context.context.clone();
+        let saved_first = self.first;
         let mac = if self.first {
             self.first = false;
             self.context
@@ -1050,7 +1056,12 @@ impl<K: AsRef<Key>> ServerSequence<K> {
         let signing_len = self.key().signing_len();
         self.context.apply_signature(&mac.as_ref()[..signing_len]);
         let mac = self.key().signature_slice(&mac);
-        self.key().complete_message(message, &variables, mac)
+        let res = self.key().complete_message(message, &variables, mac);
+        if res.is_err() {
+            self.context.context = saved_context;
+            self.first = saved_first;
+        }
+        res
     }
 
     /// Returns a reference to the transaction’s key.
